@@ -304,6 +304,30 @@ func Run(r *fw.Run) {
 	for _, e := range elems {
 		paths = append(paths, "gopkg.in/"+e, "gopkg.in/"+e+".v1", "gopkg.in/"+e+"/x.v2")
 	}
+	// (c2) the reserved Windows names: every name (three spellings) alone, with an extension, and joined to
+	// every other name or a letter by each character an element may contain next to it
+	{
+		names := []string{"con", "prn", "aux", "nul"}
+		for i := 0; i <= 9; i++ {
+			names = append(names, fmt.Sprintf("com%d", i), fmt.Sprintf("lpt%d", i))
+		}
+		names = append(names, "com", "lpt", "com10", "conin$", "clock$")
+		n0 := len(paths)
+		for _, a := range names {
+			for _, sp := range []string{a, strings.ToUpper(a), strings.ToUpper(a[:1]) + a[1:]} {
+				paths = append(paths, sp, sp+".txt", sp+".a.b", "d/"+sp, sp+"/x", "x."+sp, sp+" ", " "+sp, sp+"~1")
+			}
+			for _, sep := range []string{" ", "-", "_", "+", "~", ",", "", ". ", " ."} {
+				for _, b := range append(append([]string{}, names...), "x") {
+					paths = append(paths, a+sep+b, a+sep+b+".txt", "d/"+strings.ToUpper(a)+sep+b)
+					if b == "x" {
+						paths = append(paths, b+sep+a)
+					}
+				}
+			}
+		}
+		r.Bounds["reserved_name_elements"] = len(paths) - n0
+	}
 	r.Bounds["element_paths"] = len(paths)
 	fw.Parallel(16, func(sh int) {
 		l := fw.NewLocal()
